@@ -417,10 +417,15 @@ static int op_is_nc_insert(const opdesc *op) { return op->code == OP_INS_N || op
 /* ------------------------------------------------------------------ the typed parsers */
 typedef struct { int root; void *obj; } parsed;
 static void set_versions(int root) {
-	if (root == RR_AGGR_V1 || root == RR_AGGR_V2)
+	/* each service has its own PDU version option; the other service's option is set to the OTHER version, which must not matter */
+	if (root == RR_AGGR_V1 || root == RR_AGGR_V2) {
 		KSI_CTX_setOption(ctx, KSI_OPT_AGGR_PDU_VER, (void *)(size_t)(root == RR_AGGR_V1 ? KSI_PDU_VERSION_1 : KSI_PDU_VERSION_2));
-	if (root == RR_EXT_V1 || root == RR_EXT_V2)
+		KSI_CTX_setOption(ctx, KSI_OPT_EXT_PDU_VER, (void *)(size_t)(root == RR_AGGR_V1 ? KSI_PDU_VERSION_2 : KSI_PDU_VERSION_1));
+	}
+	if (root == RR_EXT_V1 || root == RR_EXT_V2) {
 		KSI_CTX_setOption(ctx, KSI_OPT_EXT_PDU_VER, (void *)(size_t)(root == RR_EXT_V1 ? KSI_PDU_VERSION_1 : KSI_PDU_VERSION_2));
+		KSI_CTX_setOption(ctx, KSI_OPT_AGGR_PDU_VER, (void *)(size_t)(root == RR_EXT_V1 ? KSI_PDU_VERSION_2 : KSI_PDU_VERSION_1));
+	}
 }
 static int impl_parse(int root, const unsigned char *p, size_t n, parsed *out) {
 	unsigned char *ex = ku_exact(p, n);
